@@ -2,6 +2,7 @@ package engine
 
 import (
 	"fmt"
+	"os"
 	"sort"
 	"strings"
 	"sync"
@@ -77,6 +78,7 @@ type Explorer struct {
 	Deadline time.Time
 	Workers  int
 	SolverKind string
+	SMTLog     string
 	TimeoutMs  int
 
 	mu      sync.Mutex
@@ -86,6 +88,7 @@ type Explorer struct {
 	res     *Result
 	knownDone map[string]bool
 	stopAll bool
+	nViol   int
 }
 
 func (x *Explorer) expired() bool {
@@ -135,9 +138,19 @@ type Path struct {
 	fpLemma  map[string]bool
 	ghost    map[string]Value
 	funcs    map[string]int
+	unwind   int
+	quick    int
+	unknowns int
 }
 
 func (p *Path) inModel(fn *ssa.Function) bool { return false }
+
+func (p *Path) unwindBound() int {
+	if p.unwind > 0 {
+		return p.unwind
+	}
+	return p.E.Unwind
+}
 
 func (p *Path) Fresh(tag string, s Sort) *Term {
 	if p.fresh == nil {
@@ -222,6 +235,14 @@ func (p *Path) branchAux(c *Term, aux uint64, knownTrueSat bool) bool {
 	if c.IsConst() {
 		return c.C == 1
 	}
+	if v, ok := quickDecide(c, 0); ok {
+		p.quick++
+		return v
+	}
+	c = normCmp(c)
+	if c.IsConst() {
+		return c.C == 1
+	}
 	if p.w == nil {
 		p.unsupported("symbolic branch outside exploration")
 	}
@@ -234,10 +255,16 @@ func (p *Path) branchAux(c *Term, aux uint64, knownTrueSat bool) bool {
 		if !knownTrueSat {
 			rt = p.w.s.CheckWith(c)
 		}
+		if rt == "unknown" {
+			p.unknownBranch()
+		}
 		if rt == "unsat" {
 			d = Decision{Val: 0, Forced: true, Aux: aux}
 		} else {
 			rf := p.w.s.CheckWith(Not(c))
+			if rf == "unknown" {
+				p.unknownBranch()
+			}
 			if rf == "unsat" {
 				d = Decision{Val: 1, Forced: true, Aux: aux}
 			} else {
@@ -258,6 +285,16 @@ func (p *Path) branchAux(c *Term, aux uint64, knownTrueSat bool) bool {
 	return d.Val == 1
 }
 
+func (p *Path) unknownBranch() {
+	p.unknowns++
+	p.X.mu.Lock()
+	p.X.res.Notes["branch feasibility unknown (kept as feasible)"]++
+	p.X.mu.Unlock()
+	if p.unknowns > 3 {
+		panic(&abortPath{Kind: "bound", Msg: "more than 3 undecided branch conditions on one path (solver unknown)"})
+	}
+}
+
 // Choose makes a free n-way choice (every option is explored).
 func (p *Path) Choose(n int) int {
 	if n <= 1 {
@@ -274,6 +311,7 @@ func (p *Path) Choose(n int) int {
 		}
 	}
 	p.record(d)
+	p.pushLevel()
 	return d.Val
 }
 
@@ -336,6 +374,13 @@ func (p *Path) Assert(id string, c *Term) {
 	st.Checked++
 	st.Reachable = true
 	x.mu.Unlock()
+	if !c.IsConst() {
+		if v, ok := quickDecide(c, 0); ok && v {
+			c = TrueT
+		} else {
+			c = normCmp(c)
+		}
+	}
 	if c.IsTrue() {
 		x.mu.Lock()
 		st.Proved++
@@ -408,6 +453,13 @@ func (p *Path) violation(id string, m map[string]uint64, panicMsg string) {
 	}
 	if len(x.res.Violations) < 64 {
 		x.res.Violations = append(x.res.Violations, v)
+	}
+	if p.known == "" {
+		x.nViol++
+		if x.nViol >= 12 && !x.E.ExploreKnown {
+			x.res.Notes["exploration stopped after 12 witnesses"] = 1
+			x.stopAll = true
+		}
 	}
 }
 
@@ -499,6 +551,10 @@ func (x *Explorer) Run() *Result {
 			x.res.Incomplete = "cannot start solver: " + err.Error()
 			return x.res
 		}
+		if x.SMTLog != "" {
+			f, _ := os.Create(fmt.Sprintf("%s.%d.smt2", x.SMTLog, i))
+			s.Log = f
+		}
 		workers[i] = &worker{s: s}
 	}
 	for i := 0; i < x.Workers; i++ {
@@ -570,7 +626,7 @@ func (x *Explorer) runPath(w *worker, prefix []Decision) {
 	}
 	keep := 0
 	for i := 0; i < common; i++ {
-		if !prefix[i].Forced && !prefix[i].Free {
+		if !prefix[i].Forced {
 			keep++
 		}
 	}
@@ -585,6 +641,7 @@ func (x *Explorer) runPath(w *worker, prefix []Decision) {
 	x.mu.Lock()
 	defer x.mu.Unlock()
 	x.res.Steps += int64(p.steps)
+	x.res.Notes["branches decided by interval pre-check"] += p.quick
 	for k, v := range p.funcs {
 		x.res.Funcs[k] += v
 	}
